@@ -27,6 +27,7 @@ TEXTS = {
     'termtype': "Terminal type? ",
     'closed': "Connection closed by remote host.\r\n",
 }
+BANNERS_L1 = ['Gr\xfc\xdfe von h\xf6st\r\n', 'ssh: connect to host caf\xe9 port 22: Connection refused\r\n', '\xff\xfe motd\r\n']
 BANNERS = ['Last login: Mon Jan 1 00:00:00 2024 from 10.0.0.2\r\n', 'Welcome!\r\n',
            'Disk quota: 5# of 10 used\r\n', 'Price list: 5$ per hour\r\n', 'motd ### maintenance ###\r\n', '\r\n']
 ORIG_PROMPTS = {'sh': 'user@h:~$ ', 'csh': 'h# ', 'zsh': 'h$ '}
@@ -45,6 +46,8 @@ def generate(rng):
         st = {'k': kd}
         if kd == 'banner':
             st['text'] = rng.choice(BANNERS)
+            if scn['enc'] is None and rng.random() < 0.3:
+                st['text'] = rng.choice(BANNERS_L1)      # a Latin-1 host name / message: bytes mode must cope with any bytes
         if kd == 'silence':
             st['dt'] = rng.choice([200000, 2000000, 12000000, 40000000])
         st['delay'] = rng.choice([0, 100, 3000, 300000])
